@@ -33,6 +33,10 @@ TensorSymmetric(T, tol) == \A i \in DOMAIN T : \A j \in DOMAIN T[i] : Abs(T[i][j
 GramIsIdentity(gram, one, tol) ==
   \A i \in DOMAIN gram : \A j \in DOMAIN gram[i] : Abs(gram[i][j] - (IF i = j THEN one ELSE 0)) <= tol
 
+\* a signature of a finite matrix group that does not depend on the choice of lattice vectors:
+\* how many elements have each <<trace, determinant>>
+ClassSigOf(P) == {<<p[1], p[2], Cardinality({R \in P : <<Trace(R), Det(R)>> = p})>> : p \in {<<Trace(R), Det(R)>> : R \in P}}
+
 \* ------------------------------------------------------------------ subgroup lattice of a point group
 \* P: a sequence of the distinct matrices of a finite matrix group
 IndexIn(P, m) == CHOOSE i \in DOMAIN P : P[i] = m
